@@ -121,6 +121,18 @@ def run_selftest(prop: str, repo: Repo, quiet=False):
                               **{k: v for k, v in r.items() if k not in ("id",)}})
         if not quiet and verdict != "silent":
             print(f"  selftest {b['id']}: {verdict} ({r.get('why', r.get('reports'))})")
+    # whole-tree behaviour-preserving transformations must leave the check silent
+    from .metamorphic import TRANSFORMS, run_transform
+
+    mjobs = [(t, prop, str(repo.root)) for t in TRANSFORMS]
+    with ProcessPoolExecutor(max_workers=min(16, len(mjobs))) as ex:
+        mres = list(ex.map(run_transform, mjobs))
+    out["metamorphic"] = [{"transformation": t, "verdict": st, "why": why} for t, _p, st, why in mres]
+    for t, _p, st, why in mres:
+        if st != "silent":
+            rc = 2
+            if not quiet:
+                print(f"  selftest metamorphic {t}: {st} ({why})")
     out["wall_s"] = round(time.time() - t0, 2)
     out["summary"] = {
         "mutants": len(muts),
@@ -129,9 +141,12 @@ def run_selftest(prop: str, repo: Repo, quiet=False):
         "skipped": sum(1 for x in out["mutants"] + out["benign"] if x["verdict"] == "selftest-skipped"),
         "benign": len(bens),
         "benign_silent": sum(1 for x in out["benign"] if x["verdict"] == "silent"),
+        "metamorphic": len(mres),
+        "metamorphic_silent": sum(1 for x in mres if x[2] == "silent"),
     }
     if not quiet:
         s = out["summary"]
         print(f"  selftest {prop}: {s['detected']}/{s['mutants']} seeded variants detected, "
-              f"{s['benign_silent']}/{s['benign']} benign variants silent, {s['skipped']} skipped, {out['wall_s']} s")
+              f"{s['benign_silent']}/{s['benign']} benign variants silent, {s['metamorphic_silent']}/{s['metamorphic']} whole-tree transformations silent, "
+              f"{s['skipped']} skipped, {out['wall_s']} s")
     return out, rc
